@@ -26,6 +26,9 @@ type midcase struct {
 }
 
 func (m midcase) name() string {
+	if m.mode >= 2 {
+		return fmt.Sprintf("once-removed-while-firing/once-%s/%s", kinds[m.kind].name, []string{"", "", "unsubscribes-itself", "unsubscribed-by-another-task"}[m.mode])
+	}
 	return fmt.Sprintf("cancel-mid-publish/once-%s/%s", kinds[m.kind].name, []string{"cancelled-by-an-earlier-handler", "cancelled-by-another-task"}[m.mode])
 }
 
@@ -35,8 +38,58 @@ type midInst struct {
 	status string
 }
 
+// bodyRemoved (modes 2, 3): a Once handler is unsubscribed while the publish that fires it
+// is in flight - by its own body, or by another task while its body is parked. Afterwards a
+// second Once handler of the same kind is subscribed and three events are published: the
+// second handler fires exactly once, the first never again, and nothing is left registered
+// but the plain handler.
+func (in *midInst) bodyRemoved() {
+	A := bp.Types[0]
+	bus := eventbus.New()
+	o := kinds[in.m.kind].o
+	// slot handlers: three different functions (Unsubscribe identifies a handler by its
+	// function, and closures of one literal would be the same function to it)
+	evt.Deliver = func(ti, slot, id int, ctx context.Context) {
+		switch slot {
+		case 1:
+			in.rec.Add("h1", id, 0, "")
+		case 0:
+			in.rec.Add("once", id, 0, "")
+			if in.m.mode == 2 {
+				A.Unsub(bus, 0, o.Ctx)
+			} else {
+				vrt.Point()
+			}
+		case 2:
+			in.rec.Add("once2", id, 0, "")
+		}
+	}
+	A.Sub(bus, 1, evt.SubOpts{})
+	A.Sub(bus, 0, o)
+	if in.m.mode == 3 {
+		vrt.Go(func() {
+			vrt.Point()
+			A.Unsub(bus, 0, o.Ctx)
+		})
+	}
+	A.Pub(bus, 2)
+	vrt.Join()
+	bus.Wait()
+	A.Sub(bus, 2, o)
+	for _, id := range []int{4, 6, 8} {
+		A.Pub(bus, id)
+		vrt.Join()
+		bus.Wait()
+	}
+	in.rec.Add("count", A.Count(bus), 0, "")
+}
+
 func (in *midInst) Body() {
 	evt.Deliver = func(ti, slot, id int, ctx context.Context) {}
+	if in.m.mode >= 2 {
+		in.bodyRemoved()
+		return
+	}
 	A := bp.Types[0]
 	bus := eventbus.New()
 	ctx, cancel := context.WithCancel(context.Background())
@@ -94,9 +147,11 @@ func (in *midInst) Check(res *vrt.Result) []vrt.Violation {
 	bad := func(sig string) {
 		vs = append(vs, vrt.Violation{Kind: "once-cancel-mid-publish", Sig: name + ": " + sig, Detail: in.rec.String()})
 	}
-	n := 0
+	n, n2 := 0, 0
 	for _, e := range in.rec.Events() {
 		switch e.K {
+		case "once2":
+			n2++
 		case "once":
 			n++
 		case "count":
@@ -104,6 +159,15 @@ func (in *midInst) Check(res *vrt.Result) []vrt.Violation {
 				bad(fmt.Sprintf("after a publish with a live context that follows it, HandlerCount is %d (want 1: the Once handler has fired and only the plain handler is left)", e.A))
 			}
 		}
+	}
+	if in.m.mode >= 2 {
+		if n > 1 {
+			bad(fmt.Sprintf("a Once handler that was unsubscribed while firing was invoked %d times", n))
+		}
+		if n2 != 1 {
+			bad(fmt.Sprintf("a Once handler subscribed after another one had been unsubscribed while firing was invoked %d times over three eligible publishes (want exactly 1)", n2))
+		}
+		return vs
 	}
 	if n != 1 {
 		bad(fmt.Sprintf("the Once handler was invoked %d times over a publish cancelled while an earlier handler ran and two publishes with a live context (want exactly 1)", n))
@@ -114,7 +178,7 @@ func (in *midInst) Check(res *vrt.Result) []vrt.Violation {
 func midcases() []midcase {
 	var l []midcase
 	for k := range kinds {
-		for mode := 0; mode < 2; mode++ {
+		for mode := 0; mode < 4; mode++ {
 			l = append(l, midcase{k, mode})
 		}
 	}
